@@ -68,8 +68,8 @@ def view(sc, strip):
 
 class C11(Prop):
     id = 'C11'
-    quick_cases = 300
-    thorough_cases = 6000
+    quick_cases = 600
+    thorough_cases = 20000
     rule = ('valid statecharts built through the API with hostile strings in every string field (unicode incl. non-BMP, '
             'YAML-significant punctuation, leading/trailing blanks, multi-line, yes/no/null/~/1e3/0x1, empty) and random '
             'generated charts with executable code; real export_to_yaml / import_from_yaml; oracle: the re-import '
